@@ -615,4 +615,93 @@ Hypot(x, y) ==
     LET sp == SpecialHypot(x, y) IN
     IF sp.k = "bits" THEN sp.v ELSE IF sp.k = "nan" THEN QNaN ELSE HypotFinite(x, y)
 
+
+(* ------------------------------------------------------------------------ *)
+(* Correctly rounded square root of a wide natural: sqrt(rad * 2^(2e)),      *)
+(* rad # 0 in limbs.  The radicand is scaled by an even power of two so that *)
+(* the integer root t has 14 bits; the remainder is the sticky bit.          *)
+SqrtWide(rad, e) ==
+    LET L  == WBitLen(rad)
+        k  == IF L > 28 THEN (L - 27) \div 2 ELSE 0          \* candidates are t * 2^k
+        up == IF L < 27 THEN (28 - L) \div 2 ELSE 0          \* or the radicand is scaled up by 2^(2 up)
+        R  == WShl(rad, 2 * up)
+        t  == WSqrtSearch(R, k, 1, 32767)
+        ex == WCmp(WShl(WFromNat(t * t), 2 * k), R) = 0
+    IN  RoundPack(0, t, e + k - up, ~ex)
+
+(* sqrt(x^2 + y^2 + z^2) for finite arguments, correctly rounded: the sum of *)
+(* squares is formed exactly in limbs at the exponent of the smallest        *)
+(* non-zero argument (at most 2^22 * 2^(2*39) < 2^101)                        *)
+HypotExpOr(h, dflt) == IF IsZero(h) THEN dflt ELSE NExp(h)
+HypotTerm(h, emin) == IF IsZero(h) THEN << >> ELSE WShl(WFromNat(NMant(h) * NMant(h)), 2 * (NExp(h) - emin))
+
+HypotFinite3(x, y, z) ==
+    IF IsZero(x) /\ IsZero(y) /\ IsZero(z) THEN PosZero
+    ELSE LET emin == Min(HypotExpOr(x, 100), Min(HypotExpOr(y, 100), HypotExpOr(z, 100)))
+             rad  == WAdd(HypotTerm(x, emin), WAdd(HypotTerm(y, emin), HypotTerm(z, emin)))
+         IN  SqrtWide(rad, emin)
+
+(* hypot(x, y, z) (C++17 [c.math.hypot3]; the library documents it as exact  *)
+(* to rounding).  The standard does not say whether an infinite argument     *)
+(* wins over a NaN as it does for the two-argument function (F.10.4.3):      *)
+(* Hypot3OK accepts both answers there.                                       *)
+Hypot3OK(x, y, z, r) ==
+    LET anyinf == IsInf(x) \/ IsInf(y) \/ IsInf(z)
+        anynan == IsNaN(x) \/ IsNaN(y) \/ IsNaN(z)
+    IN  IF anyinf /\ anynan THEN r = PosInf \/ IsNaN(r)
+        ELSE IF anyinf THEN r = PosInf
+        ELSE IF anynan THEN IsNaN(r)
+        ELSE r = HypotFinite3(x, y, z)
+
+(* the same route for two arguments: a second definition of Hypot (checked    *)
+(* equal to it by HalfLaws)                                                    *)
+Hypot2ViaWide(x, y) ==
+    LET sp == SpecialHypot(x, y) IN
+    IF sp.k = "bits" THEN sp.v ELSE IF sp.k = "nan" THEN QNaN ELSE HypotFinite3(x, y, PosZero)
+
+(* ------------------------------------------------------------------------ *)
+(* cbrt, correctly rounded (F.10.4.1: cbrt(+-0) = +-0, cbrt(+-inf) = +-inf).  *)
+(* |x| = M * 2^E with M in [2^10, 2^11), E = 3k + j: the root is               *)
+(* cbrt(M * 2^j * 2^30) * 2^(k - 10); N = M * 2^(j+30) lies in [2^40, 2^43),   *)
+(* so t = floor(cbrt(N)) has 14 or 15 bits and the remainder is sticky.        *)
+WCube(t) == WMulLimb(WMulLimb(WFromNat(t), t), t)            \* t < 2^15
+
+RECURSIVE WCbrtSearch(_, _, _)
+WCbrtSearch(N, lo, hi) ==          \* largest t in lo..hi with t^3 <= N
+    IF lo = hi THEN lo
+    ELSE LET mid == (lo + hi + 1) \div 2
+         IN  IF WCmp(WCube(mid), N) <= 0 THEN WCbrtSearch(N, mid, hi) ELSE WCbrtSearch(N, lo, mid - 1)
+
+Cbrt(x) ==
+    IF IsNaN(x) THEN QNaN
+    ELSE IF IsZero(x) \/ IsInf(x) THEN x
+    ELSE LET j == NExp(x) % 3
+             k == (NExp(x) - j) \div 3
+             N == WShiftLimbs(WFromNat(NMant(x) * Pow2(j)), 2)
+             t == WCbrtSearch(N, 8192, 32767)
+         IN  RoundPack(SignOf(x), t, k - 10, WCmp(WCube(t), N) # 0)
+
+(* ------------------------------------------------------------------------ *)
+(* Parameters of the format as std::numeric_limits reports them                *)
+(* (C++ [numeric.limits.members]; C 5.2.4.2.2), derived from the encoding.     *)
+RECURSIVE Pow10(_)
+Pow10(n) == IF n = 0 THEN 1 ELSE 10 * Pow10(n - 1)                       \* n <= 9
+
+LimDigits      == BitLen(Mant(One))                                      \* p = 11
+LimMax         == NextDown(PosInf)
+LimLowest      == Neg(LimMax)
+LimMin         == CHOOSE h \in 1..31743 : IsNormal(h) /\ ~IsNormal(h - 1)
+LimDenormMin   == NextUp(PosZero)
+LimEpsilon     == Sub(NextUp(One), One)
+LimRoundError  == RoundPack(0, 1, -1, FALSE)                             \* 1/2 ulp: rounding to nearest
+LimDigits10    == CHOOSE d \in 0..9 : Pow10(d) <= Pow2(LimDigits - 1) /\ Pow10(d + 1) > Pow2(LimDigits - 1)
+LimMaxDigits10 == CHOOSE d \in 1..9 : Pow10(d - 1) > Pow2(LimDigits) /\ (d = 1 \/ Pow10(d - 2) <= Pow2(LimDigits))
+LimMinExp      == Ilogb(LimMin).v + 1
+LimMaxExp      == Ilogb(LimMax).v + 1
+\* 10^-k is a normal value iff 10^k <= 2^(1 - LimMinExp); 10^k is finite iff 10^k <= value(LimMax)
+LimMinExp10    == -(CHOOSE k \in 0..9 : Pow10(k) <= Pow2(1 - LimMinExp) /\ Pow10(k + 1) > Pow2(1 - LimMinExp))
+LimMaxExp10    == CHOOSE k \in 0..9 : Pow10(k) <= IntMag(LimMax, "trunc") /\ Pow10(k + 1) > IntMag(LimMax, "trunc")
+IsQuietNaN(h)      == IsNaN(h) /\ (FracOf(h) \div 512) = 1
+IsSignallingNaN(h) == IsNaN(h) /\ (FracOf(h) \div 512) = 0
+
 =============================================================================
